@@ -1,5 +1,5 @@
 (** Protocol invariant, part 18: one scheduling round ([OpSched]) preserves [PROTO]. *)
-From HQ Require Import Base.Prelude Cluster.Types Cluster.Core Cluster.Reactor Cluster.Worker Cluster.Server Cluster.Sys Cluster.ProofsJob Cluster.ProofsMore Cluster.InvQBase Cluster.InvQTake Cluster.NoPanicU0 Cluster.NoPanicU1 Cluster.NoPanicU2 Cluster.NoPanicU4 Cluster.NoPanicU6 Cluster.NoPanicU7 Cluster.NoPanicU8 Cluster.NoPanicU9 Cluster.NoPanicU10 Cluster.NoPanicU16.
+From HQ Require Import Base.Prelude Cluster.Types Cluster.Core Cluster.Reactor Cluster.Worker Cluster.Server Cluster.Sys Cluster.ProofsJob Cluster.ProofsMore Cluster.InvQBase Cluster.InvQTake Cluster.NoPanicU0 Cluster.NoPanicU1 Cluster.NoPanicU2 Cluster.NoPanicU4 Cluster.NoPanicU6 Cluster.NoPanicU7 Cluster.NoPanicU8 Cluster.NoPanicU9 Cluster.NoPanicU10 Cluster.NoPanicU11 Cluster.NoPanicU16.
 From Coq Require Import ZArith Lia Sorting.Sorted Sorting.Permutation.
 Local Open Scope N_scope.
 
@@ -574,4 +574,400 @@ Proof.
       inversion H; subst c' m'. split; [|apply RQP_tasks; reflexivity].
       apply (RI_frame false s c1 (upd_worker c1 wo') m mn R1 eq_refl eq_refl); [apply (QR_same c1 (upd_worker c1 wo') (ri_qr _ _ _ _ _ R1)); reflexivity | exact Hred1].
     + inversion H; subst c' m'. split; [exact R1 | apply RQP_tasks; reflexivity].
+Qed.
+
+(** * The round-robin distribution *)
+Definition CL (c : core) (ids : list tid) : Prop :=
+  forall id t, In id ids -> find_task (c_tasks c) id = Some t -> exists r, nth_error (c_rqs c) (N.to_nat (t_rq t)) = Some r /\ rq_is_mn r = false.
+Lemma CL_step c c' ids : RQP c c' -> c_rqs c' = c_rqs c -> CL c ids -> CL c' ids.
+Proof. intros HQ Er H id t' Hin Hf. destruct (HQ _ _ Hf) as (t & Hf0 & Et). rewrite Er, Et. eapply H; eassumption. Qed.
+Lemma CL_incl c a b : incl a b -> CL c b -> CL c a.
+Proof. intros Hi H id t Hin. apply H. apply Hi. exact Hin. Qed.
+Lemma RI_rqs pf s c c' m mn m' mn' : RI pf s c m mn -> RI pf s c' m' mn' -> c_rqs c' = c_rqs c.
+Proof. intros A B. rewrite (ri_rq _ _ _ _ _ A), (ri_rq _ _ _ _ _ B). reflexivity. Qed.
+
+Lemma rr_pass_RI s mn v rqres counts : forall c m tasks c' m' counts' rest,
+  RI false s c m mn -> v = 0 -> CL c tasks -> rr_pass c m counts tasks v rqres = Ok (c', m', counts', rest) ->
+  RI false s c' m' mn /\ RQP c c' /\ incl rest tasks.
+Proof.
+  induction counts as [|[w n] r IH]; intros c m tasks c' m' counts' rest HR Hv Hcl H.
+  - destruct tasks; cbn [rr_pass] in H; inversion H; subst; (split; [exact HR | split; [apply RQP_refl | apply incl_refl]]).
+  - destruct tasks as [|id tl]; cbn [rr_pass] in H; [inversion H; subst; split; [exact HR | split; [apply RQP_refl | apply incl_refl]]|].
+    destruct (N.ltb 0 n).
+    + apply bind_ok in H. destruct H as ([c1 m1] & H1 & H). apply bind_ok in H. destruct H as ([[[c2 m2] r'] tl'] & H2 & H). inversion H; subst c' m' counts' rest. clear H.
+      destruct (map_one_RI s c m mn id w v rqres c1 m1 HR Hv (fun t Ht => Hcl id t (or_introl eq_refl) Ht) H1) as [R1 Q1].
+      destruct (IH c1 m1 tl c2 m2 r' tl' R1 Hv) as (R2 & Q2 & I2); [|exact H2|].
+      * apply (CL_step c c1); [exact Q1 | exact (RI_rqs _ _ _ _ _ _ _ _ HR R1)|]. eapply CL_incl; [|exact Hcl]. intros x Hx. right. exact Hx.
+      * split; [exact R2|]. split; [eapply RQP_trans; eassumption|]. intros x Hx. right. apply I2. exact Hx.
+    + apply bind_ok in H. destruct H as ([[[c2 m2] r'] tl'] & H2 & H). inversion H; subst c' m' counts' rest. clear H.
+      eapply IH; eassumption.
+Qed.
+
+Lemma rr_loop_RI s mn v rqres fuel : forall c m counts tasks c' m',
+  RI false s c m mn -> v = 0 -> CL c tasks -> rr_loop fuel c m counts tasks v rqres = Ok (c', m') ->
+  RI false s c' m' mn /\ RQP c c'.
+Proof.
+  induction fuel as [|k IH]; intros c m counts tasks c' m' HR Hv Hcl H; destruct tasks as [|id tl]; cbn [rr_loop] in H;
+    try (inversion H; subst; split; [exact HR | apply RQP_refl]); try discriminate.
+  apply bind_ok in H. destruct H as ([[[c1 m1] counts1] rest] & H1 & H).
+  destruct (rr_pass_RI s mn v rqres counts c m (id :: tl) c1 m1 counts1 rest HR Hv Hcl H1) as (R1 & Q1 & I1).
+  destruct (IH c1 m1 counts1 rest c' m' R1 Hv) as [R2 Q2]; [|exact H|].
+  - apply (CL_step c c1); [exact Q1 | exact (RI_rqs _ _ _ _ _ _ _ _ HR R1)|]. eapply CL_incl; eassumption.
+  - split; [exact R2 | eapply RQP_trans; eassumption].
+Qed.
+
+(** * [map_sn] *)
+Definition sn_ok (c : core) (l : list (N * N * list (wid * N))) : Prop :=
+  forall e, In e l -> snd (fst e) = 0 /\ exists r, nth_error (c_rqs c) (N.to_nat (fst (fst e))) = Some r /\ rq_is_mn r = false.
+
+Lemma QR_member_class c i q id t : QR c -> nth_error (c_queues c) i = Some q -> member q id -> find_task (c_tasks c) id = Some t -> N.to_nat (t_rq t) = i.
+Proof. intros [_ H] Hq Hm Hf. destruct (H i q id Hq Hm) as (t0 & Hf0 & E). rewrite Hf in Hf0. injection Hf0 as Et. rewrite Et. exact E. Qed.
+
+Lemma map_sn_RI s mn sol l : forall c m c' m',
+  RI false s c m mn -> sn_ok c l -> map_sn c m sol l = Ok (c', m') -> RI false s c' m' mn /\ RQP c c'.
+Proof.
+  induction l as [|[[rq v] counts] r IH]; intros c m c' m' HR Hok H; cbn [map_sn] in H; [inversion H; subst; split; [exact HR | apply RQP_refl]|].
+  apply bind_ok in H. destruct H as (rqd & _ & H). apply bind_ok in H. destruct H as (q & Hq & H). apply bind_ok in H. destruct H as ([tasks q'] & Ht & H).
+  apply bind_ok in H. destruct H as ([c2 m2] & Hrr & H).
+  destruct (Hok _ (or_introl eq_refl)) as (Hv & r0 & Hr0 & Hmn0). cbn [fst snd] in Hv, Hr0.
+  apply nth_queue_some in Hq. pose proof (ri_qr _ _ _ _ _ HR) as HQ. destruct HQ as [HWF HQm].
+  assert (Wq : WFQ q) by (rewrite Forall_forall in HWF; apply HWF; eapply nth_error_In; exact Hq).
+  pose proof (q_take_tasks_spec _ _ _ _ _ Wq Ht) as TK.
+  set (c1 := with_queues c (set_queue (c_queues c) (N.to_nat rq) q')) in *.
+  assert (R1 : RI false s c1 m mn).
+  { apply (RI_frame false s c c1 m mn HR eq_refl eq_refl); [|exact (sp_rvr _ _ _ _ (ri_sp _ _ _ _ _ HR))].
+    apply (QR_set_queue c (N.to_nat rq) q q' (ri_qr _ _ _ _ _ HR) Hq (tk_wf _ _ _ TK)). intros x Hx. eapply TakeQ_member; eassumption. }
+  assert (Hcl : CL c1 tasks).
+  { intros id t Hin Hf. change (c_tasks c1) with (c_tasks c) in Hf. change (c_rqs c1) with (c_rqs c).
+    rewrite (QR_member_class c (N.to_nat rq) q id t (ri_qr _ _ _ _ _ HR) Hq (TakeQ_taken_member _ _ _ _ TK Hin) Hf). eauto. }
+  destruct (rr_loop_RI s mn v (rq_res rqd) _ c1 m counts tasks c2 m2 R1 Hv Hcl Hrr) as [R2 Q2].
+  destruct (IH c2 m2 c' m' R2) as [R3 Q3]; [|exact H|].
+  - intros e He. destruct (Hok e (or_intror He)) as (A & r1 & B & C). split; [exact A|]. exists r1. rewrite (RI_rqs _ _ _ _ _ _ _ _ HR R2). auto.
+  - split; [exact R3|]. eapply RQP_trans; [|exact Q3]. eapply RQP_trans; [apply (RQP_tasks c c1); reflexivity | exact Q2].
+Qed.
+
+(** * Sorting the assigned lists *)
+Lemma insert_by_prio_perm c x l : Permutation (x :: l) (insert_by_prio c x l).
+Proof.
+  induction l as [|h t IH]; cbn [insert_by_prio]; [apply Permutation_refl|].
+  match goal with |- context [if ?b then _ else _] => destruct b end; [apply Permutation_refl|].
+  eapply Permutation_trans; [apply perm_swap | apply perm_skip; exact IH].
+Qed.
+Lemma sort_assigned_perm c l : Permutation l (sort_assigned c l).
+Proof.
+  unfold sort_assigned. assert (H : forall acc, Permutation (l ++ acc) (fold_left (fun acc x => insert_by_prio c x acc) l acc)).
+  { induction l as [|x r IH]; intros acc; cbn [fold_left app]; [apply Permutation_refl|].
+    eapply Permutation_trans; [|apply IH]. eapply Permutation_trans; [apply Permutation_middle|]. apply Permutation_app_head. apply insert_by_prio_perm. }
+  specialize (H []). rewrite app_nil_r in H. exact H.
+Qed.
+Lemma cit_perm y l l' : Permutation l l' -> NoDup (map fst l) -> cit y l = cit y l'.
+Proof.
+  unfold cit. induction 1 as [|x l l' Hp IH|a b l|l1 l2 l3 H1 IH1 H2 IH2]; intros Hn; cbn [flat_map map] in *.
+  - reflexivity.
+  - inversion Hn; subst. rewrite IH by assumption. reflexivity.
+  - inversion Hn as [|? ? Ha Hn']; subst. unfold sel. destruct (tid_eqb (fst b) y) eqn:E1, (tid_eqb (fst a) y) eqn:E2; try reflexivity.
+    apply tid_eqb_eq in E1, E2. exfalso. apply Ha. left. congruence.
+  - rewrite IH1 by exact Hn. apply IH2. eapply Permutation_NoDup; [apply Permutation_map; exact H1 | exact Hn].
+Qed.
+
+Definition sortu (c : core) (u : wupd) : wupd := mkWU (wu_w u) (sort_assigned c (wu_assigned u)) (wu_prefills u) (wu_retracts u).
+
+Lemma wfind_map_sortu c m w : wfind (map (sortu c) m) w = option_map (sortu c) (wfind m w).
+Proof. induction m as [|h t IH]; cbn [map wfind]; [reflexivity|]. cbn [sortu wu_w]. destruct (N.eqb w (wu_w h)); [reflexivity | exact IH]. Qed.
+
+Lemma RI_sort pf s c m mn : RI pf s c m mn -> RI pf s c (map (sortu c) m) mn.
+Proof.
+  intros HR. pose proof (ri_nd _ _ _ _ _ HR) as Hnd.
+  assert (Hk : map wu_w (map (sortu c) m) = map wu_w m) by (rewrite map_map; reflexivity).
+  assert (Hnd' : NoDup (map wu_w (map (sortu c) m))) by (rewrite Hk; exact Hnd).
+  assert (Hin : forall u', In u' (map (sortu c) m) -> exists u, In u m /\ u' = sortu c u) by (intros u' H; apply in_map_iff in H; destruct H as (u & E & Hu); eauto).
+  assert (Hmem : forall u yv, In u m -> (In yv (sort_assigned c (wu_assigned u)) <-> In yv (wu_assigned u))).
+  { intros u yv _. split; intros H; [eapply Permutation_in; [apply Permutation_sym, sort_assigned_perm | exact H] | eapply Permutation_in; [apply sort_assigned_perm | exact H]]. }
+  assert (Hit : forall w' z, ditems z (msgs_for w' (pdM c (map (sortu c) m) mn)) = ditems z (msgs_for w' (pdM c m mn))).
+  { intros w' z. rewrite (pdM_items c _ mn w' z Hnd'), (pdM_items c m mn w' z Hnd), wfind_map_sortu. destruct (wfind m w') as [u|] eqn:E; [|reflexivity].
+    cbn [option_map]. f_equal. unfold uit. cbn [sortu wu_assigned wu_prefills wu_retracts]. f_equal. f_equal. symmetry. apply cit_perm; [apply sort_assigned_perm|].
+    apply (ri_nda _ _ _ _ _ HR). eapply wfind_in; exact E. }
+  assert (HP' : POK c (map (sortu c) m) mn).
+  { destruct (ri_ok _ _ _ _ _ HR) as [Pa Pm]. split; [|exact Pm]. intros u' y v Hu' Hyv. destruct (Hin _ Hu') as (u & Hu & ->).
+    cbn [sortu wu_assigned] in Hyv. apply (Hmem u) in Hyv; [|exact Hu]. eapply Pa; eassumption. }
+  assert (Hment : forall z, ment (map (sortu c) m) mn z -> ment m mn z).
+  { intros z [(u' & Hu' & Hz)|Hz]; [|right; exact Hz]. destruct (Hin _ Hu') as (u & Hu & ->). left. exists u. split; [exact Hu|].
+    cbn [sortu wu_retracts wu_prefills wu_assigned] in Hz. destruct Hz as [Hz|[Hz|Hz]]; [auto | auto|]. right. right.
+    apply in_map_iff in Hz. destruct Hz as (yv & E & Hyv). apply (Hmem u) in Hyv; [|exact Hu]. apply in_map_iff. eauto. }
+  destruct HR as [S1 S2 S3 S4 S5 S6 S7 S8 S9 S10]. constructor; try assumption.
+  - apply (SP_ext x0 (mkSys c (hq_of (st_core s c)) (s_procs (fst (st_core s c))), snd (st_core s c))); [|reflexivity|reflexivity|reflexivity].
+    apply (SP_gen (fun _ => false) x0 x0 (st_core s c) no_pum (pdM c m mn) c _ _ no_pum (pdM c (map (sortu c) m) mn) S1 (sp_cs _ _ _ _ S1) eq_refl (sp_rvr _ _ _ _ S1)).
+    + intros z tz _ Hz _. exists tz. repeat split; assumption.
+    + intros w' z _. split; [reflexivity | apply Hit].
+    + auto.
+    + intros z tz Hz. change (core_of (st_core s c)) with c. congruence.
+    + intros w' p z Hp [[]|Hz]. apply pdM_tids, Hment, S4 in Hz. destruct (find_task (c_tasks c) z) as [tz|] eqn:E; [|congruence]. eapply (sp_pres _ _ _ _ S1). exact E.
+    + intros w' p Hp. eapply (RI_tab pf s c m mn c (map (sortu c) m) mn w' p); [constructor; assumption | exact HP' | reflexivity | exact Hp].
+    + auto.
+    + intros x tx E. discriminate.
+  - intros z Hz. apply S4. apply Hment. exact Hz.
+  - intros Hpf u' Hu'. destruct (Hin _ Hu') as (u & Hu & ->). cbn [sortu wu_prefills]. apply (S6 Hpf u Hu).
+  - intros u' y v Hu' Hyv. destruct (Hin _ Hu') as (u & Hu & ->). cbn [sortu wu_assigned wu_w] in *. apply (Hmem u) in Hyv; [|exact Hu]. eapply S7; eassumption.
+  - intros u' Hu'. destruct (Hin _ Hu') as (u & Hu & ->). cbn [sortu wu_assigned]. eapply Permutation_NoDup; [apply Permutation_map; apply sort_assigned_perm | apply S8; exact Hu].
+Qed.
+
+(** * Multi-node placements *)
+Lemma set_mn_workers_same l : forall c id first c', set_mn_workers c id l first = Ok c' ->
+  c_tasks c' = c_tasks c /\ c_queues c' = c_queues c /\ c_rqs c' = c_rqs c /\ c_redirects c' = c_redirects c.
+Proof.
+  induction l as [|w r IH]; intros c id first c' H; cbn [set_mn_workers] in H; [inversion H; auto|].
+  apply bind_ok in H. destruct H as (wk & _ & H). apply bind_ok in H. destruct H as (wk' & _ & H).
+  destruct (IH _ _ _ _ H) as (A & B & C & D). auto.
+Qed.
+
+Lemma map_mn_sets_RI pf s m rq r sets : forall c mn c' mn',
+  RI pf s c m mn -> nth_error (c_rqs c) rq = Some r -> rq_is_mn r = true ->
+  map_mn_sets c (N.of_nat rq) mn sets = Ok (c', mn') -> RI pf s c' m mn' /\ RQP c c'.
+Proof.
+  induction sets as [|ws rest IH]; intros c mn c' mn' HR Hr Hmn H; cbn [map_mn_sets] in H; [inversion H; subst; split; [exact HR | apply RQP_refl]|].
+  rewrite Nat2N.id in H.
+  apply bind_ok in H. destruct H as (q & Hq & H). destruct (q_take_one q) as [[id q']|] eqn:Etk; [|discriminate].
+  apply bind_ok in H. destruct H as (c2 & Hsm & H). apply bind_ok in H. destruct H as (t & Ht & H). apply get_task_find in Ht.
+  destruct (t_state t) as [n| | | | | |] eqn:Est; try discriminate. destruct n; [|discriminate].
+  apply nth_queue_some in Hq. destruct (ri_qr _ _ _ _ _ HR) as [HWF _].
+  assert (Wq : WFQ q) by (rewrite Forall_forall in HWF; apply HWF; eapply nth_error_In; exact Hq).
+  pose proof (q_take_one_spec _ _ _ Wq Etk) as TK.
+  set (c1 := with_queues c (set_queue (c_queues c) rq q')) in *.
+  destruct (set_mn_workers_same _ _ _ _ _ Hsm) as (E1 & E2 & E3 & E4). change (c_tasks c1) with (c_tasks c) in E1. change (c_rqs c1) with (c_rqs c) in E3. change (c_redirects c1) with (c_redirects c) in E4.
+  assert (Q1 : QR c1).
+  { apply (QR_set_queue c rq q q' (ri_qr _ _ _ _ _ HR) Hq (tk_wf _ _ _ TK)). intros x Hx. eapply TakeQ_member; eassumption. }
+  assert (R2 : RI pf s c2 m mn).
+  { apply (RI_frame pf s c c2 m mn HR E1 E3); [apply (QR_same c1 c2 Q1 E2); exact E1 | rewrite E4; exact (sp_rvr _ _ _ _ (ri_sp _ _ _ _ _ HR))]. }
+  rewrite E1 in Ht.
+  assert (Hrq : N.to_nat (t_rq t) = rq).
+  { apply (QR_member_class c rq q id t (ri_qr _ _ _ _ _ HR) Hq); [|exact Ht]. eapply TakeQ_taken_member; [exact TK | left; reflexivity]. }
+  destruct (find_task_some _ _ _ Ht) as [_ Eid].
+  assert (Ht2 : find_task (c_tasks c2) id = Some t) by (rewrite E1; exact Ht).
+  set (c3 := upd_task c2 (with_state t (RunningMN ws))) in *.
+  assert (R3 : RI pf s c3 m (mn ++ [id])).
+  { eapply (RI_mn pf s c2 c3 m mn id t 0 ws r R2 Ht2 Est); try reflexivity.
+    - rewrite E3, Hrq. exact Hr.
+    - exact Hmn.
+    - intros z. unfold c3. rewrite find_upd_task. cbn [with_state t_id]. rewrite Eid. reflexivity.
+    - unfold tsorted, c3. cbn [upd_task with_tasks c_tasks]. apply set_task_sorted. exact (sp_cs _ _ _ _ (ri_sp _ _ _ _ _ R2)). }
+  destruct (IH c3 (mn ++ [id]) c' mn' R3) as [R4 Q4]; [rewrite (RI_rqs _ _ _ _ _ _ _ _ HR R3); exact Hr | exact Hmn | exact H|].
+  split; [exact R4|]. eapply RQP_trans; [|exact Q4]. eapply RQP_trans; [apply (RQP_tasks c c2); exact E1|].
+  apply (RQP_upd c2 id t (RunningMN ws) c3 Ht2). intros z. unfold c3. rewrite find_upd_task. cbn [with_state t_id]. rewrite Eid. reflexivity.
+Qed.
+
+Definition mn_ok (c : core) (l : list (N * N * list (list wid))) : Prop :=
+  forall e, In e l -> exists r, nth_error (c_rqs c) (N.to_nat (fst (fst e))) = Some r /\ rq_is_mn r = true.
+
+Lemma map_mn_RI pf s m l : forall c mn c' mn', RI pf s c m mn -> mn_ok c l -> map_mn c mn l = Ok (c', mn') -> RI pf s c' m mn' /\ RQP c c'.
+Proof.
+  induction l as [|[[rq v] sets] rest IH]; intros c mn c' mn' HR Hok H; cbn [map_mn] in H; [inversion H; subst; split; [exact HR | apply RQP_refl]|].
+  apply bind_ok in H. destruct H as ([c1 mn1] & H1 & H). destruct (Hok _ (or_introl eq_refl)) as (r & Hr & Hmn). cbn [fst] in Hr.
+  rewrite <- (N2Nat.id rq) in H1. destruct (map_mn_sets_RI pf s m _ r sets c mn c1 mn1 HR Hr Hmn H1) as [R1 Q1].
+  destruct (IH c1 mn1 c' mn' R1) as [R2 Q2]; [|exact H|].
+  - intros e He. destruct (Hok e (or_intror He)) as (r1 & A & B). exists r1. rewrite (RI_rqs _ _ _ _ _ _ _ _ HR R1). auto.
+  - split; [exact R2 | eapply RQP_trans; eassumption].
+Qed.
+
+(** * Proactive filling *)
+Lemma wu_set_set m x y : wu_w x = wu_w y -> wu_set (wu_set m x) y = wu_set m y.
+Proof.
+  intros E. induction m as [|h t IH]; cbn [wu_set].
+  - rewrite <- E, N.eqb_refl. reflexivity.
+  - destruct (N.eqb (wu_w x) (wu_w h)) eqn:E1; cbn [wu_set].
+    + rewrite <- E, N.eqb_refl, E1. reflexivity.
+    + rewrite <- E, E1, IH. reflexivity.
+Qed.
+Lemma wu_set_same m w u : wfind m w = Some u -> wu_set m u = m.
+Proof.
+  induction m as [|h t IH]; cbn [wfind wu_set]; [discriminate|]. destruct (N.eqb w (wu_w h)) eqn:E.
+  - intros H. inversion H; subst. rewrite N.eqb_refl. reflexivity.
+  - intros H. pose proof (wfind_key _ _ _ H) as Ek. rewrite Ek, E. rewrite (IH H). reflexivity.
+Qed.
+Lemma wu_set_new m x : wfind m (wu_w x) = None -> wu_set m x = m ++ [x].
+Proof.
+  induction m as [|h t IH]; cbn [wfind wu_set]; [reflexivity|]. destruct (N.eqb (wu_w x) (wu_w h)); [discriminate|]. intros H. rewrite (IH H). reflexivity.
+Qed.
+
+Lemma RI_touch pf s c m mn w : RI pf s c m mn -> RI pf s c (wu_set m (wu_get m w)) mn.
+Proof.
+  intros HR. rewrite wu_get_wfind. destruct (wfind m w) as [u|] eqn:E; [rewrite (wu_set_same m w u E); exact HR|].
+  set (e := mkWU w [] [] []). assert (Em : wu_set m e = m ++ [e]) by (apply wu_set_new; exact E). rewrite Em.
+  pose proof (ri_nd _ _ _ _ _ HR) as Hnd.
+  assert (Hnd' : NoDup (map wu_w (m ++ [e]))) by (rewrite <- Em; apply wu_set_nodup; exact Hnd).
+  assert (Hpd : pdM c (m ++ [e]) mn = pdM c m mn) by (unfold pdM; rewrite flat_map_app; cbn [flat_map umsgs e wu_retracts wu_prefills wu_assigned map app]; rewrite app_nil_r; reflexivity).
+  assert (Hin : forall u0, In u0 (m ++ [e]) -> In u0 m \/ u0 = e) by (intros u0 H; apply in_app_iff in H; destruct H as [H|[H|[]]]; auto).
+  destruct HR as [S1 S2 S3 S4 S5 S6 S7 S8 S9 S10]. constructor; try assumption.
+  - rewrite Hpd. exact S1.
+  - destruct S3 as [Pa Pm]. split; [|exact Pm]. intros u0 y v Hu0 Hyv. destruct (Hin _ Hu0) as [H| ->]; [eapply Pa; eassumption | destruct Hyv].
+  - intros z [(u0 & Hu0 & Hz)|Hz]; [|apply S4; right; exact Hz]. destruct (Hin _ Hu0) as [H| ->]; [apply S4; left; exists u0; auto | cbn in Hz; tauto].
+  - intros Hpf u0 Hu0. destruct (Hin _ Hu0) as [H| ->]; [apply (S6 Hpf u0 H) | reflexivity].
+  - intros u0 y v Hu0 Hyv. destruct (Hin _ Hu0) as [H| ->]; [eapply S7; eassumption | destruct Hyv].
+  - intros u0 Hu0. destruct (Hin _ Hu0) as [H| ->]; [apply S8; exact H | constructor].
+Qed.
+
+Definition addpre (u : wupd) (ids : list tid) : wupd := mkWU (wu_w u) (wu_assigned u) (wu_prefills u ++ ids) (wu_retracts u).
+
+Lemma prefill_mark_RI s mn w ids : forall c m c',
+  RI true s c m mn -> CL c ids -> prefill_mark c w ids = Ok c' ->
+  RI true s c' (wu_set m (addpre (wu_get m w) ids)) mn /\ RQP c c'.
+Proof.
+  induction ids as [|id r IH]; intros c m c' HR Hcl H; cbn [prefill_mark] in H.
+  - inversion H; subst c'. split; [|apply RQP_refl]. unfold addpre. rewrite app_nil_r.
+    replace (mkWU (wu_w (wu_get m w)) (wu_assigned (wu_get m w)) (wu_prefills (wu_get m w)) (wu_retracts (wu_get m w))) with (wu_get m w) by (destruct (wu_get m w); reflexivity).
+    apply RI_touch. exact HR.
+  - apply bind_ok in H. destruct H as (t & Ht & H). apply get_task_find in Ht.
+    destruct (negb (is_waiting t)) eqn:Ew; [discriminate|]. apply negb_false_iff in Ew. unfold is_waiting in Ew. destruct (t_state t) as [n| | | | | |] eqn:Est; try discriminate.
+    apply bind_ok in H. destruct H as (wk & _ & H). apply bind_ok in H. destruct H as (wk' & _ & H).
+    destruct (find_task_some _ _ _ Ht) as [_ Eid]. destruct (Hcl id t (or_introl eq_refl) Ht) as (r0 & Hr0 & Hmn0).
+    set (c1 := upd_task c (with_state t (Prefilled w))) in *.
+    assert (Hfind1 : forall z, find_task (c_tasks c1) z = if tid_eqb z id then Some (with_state t (Prefilled w)) else find_task (c_tasks c) z).
+    { intros z. unfold c1. rewrite find_upd_task. cbn [with_state t_id]. rewrite Eid. reflexivity. }
+    assert (R1 : RI true s c1 (wu_set m (addpre (wu_get m w) [id])) mn).
+    { unfold addpre. rewrite wu_get_key. eapply (RI_prefill s c c1 m mn id t w n r0 HR Ht Est Hr0 Hmn0 Hfind1); try reflexivity.
+      unfold tsorted, c1. cbn [upd_task with_tasks c_tasks]. apply set_task_sorted. exact (sp_cs _ _ _ _ (ri_sp _ _ _ _ _ HR)). }
+    set (m1 := wu_set m (addpre (wu_get m w) [id])) in *.
+    assert (R2 : RI true s (upd_worker c1 wk') m1 mn).
+    { apply (RI_frame true s c1 (upd_worker c1 wk') m1 mn R1 eq_refl eq_refl); [apply (QR_same c1 _ (ri_qr _ _ _ _ _ R1)); reflexivity | exact (sp_rvr _ _ _ _ (ri_sp _ _ _ _ _ R1))]. }
+    assert (Q1 : RQP c (upd_worker c1 wk')) by (apply (RQP_upd c id t (Prefilled w) _ Ht); exact Hfind1).
+    destruct (IH (upd_worker c1 wk') m1 c' R2) as [R3 Q3]; [| exact H |].
+    + apply (CL_step c _ r Q1); [exact (RI_rqs _ _ _ _ _ _ _ _ HR R2)|]. eapply CL_incl; [|exact Hcl]. intros x Hx. right. exact Hx.
+    + split; [|eapply RQP_trans; eassumption].
+      assert (Eg : wu_get m1 w = addpre (wu_get m w) [id]).
+      { rewrite wu_get_wfind. unfold m1. rewrite wfind_set. unfold addpre at 1. cbn [wu_w]. rewrite wu_get_key, N.eqb_refl. reflexivity. }
+      rewrite Eg in R3. unfold m1 in R3. rewrite wu_set_set in R3 by reflexivity.
+      unfold addpre in *. cbn [wu_w wu_assigned wu_prefills wu_retracts] in R3. rewrite <- app_assoc in R3. exact R3.
+Qed.
+
+Lemma prefill_workers_RI s mn qi psize r ws : forall c m c' m',
+  RI true s c m mn -> nth_error (c_rqs c) qi = Some r -> rq_is_mn r = false ->
+  prefill_workers c m qi psize ws = Ok (c', m') -> RI true s c' m' mn /\ RQP c c'.
+Proof.
+  induction ws as [|w rest IH]; intros c m c' m' HR Hr Hmn H; cbn [prefill_workers] in H; [inversion H; subst; split; [exact HR | apply RQP_refl]|].
+  apply bind_ok in H. destruct H as (q & Hq & H). apply bind_ok in H. destruct H as ([ids q'] & Htk & H). apply bind_ok in H. destruct H as (c2 & Hpm & H).
+  apply nth_queue_some in Hq. destruct (ri_qr _ _ _ _ _ HR) as [HWF _].
+  assert (Wq : WFQ q) by (rewrite Forall_forall in HWF; apply HWF; eapply nth_error_In; exact Hq).
+  destruct (q_take_prefill_spec _ _ _ _ Wq Htk) as (pe & MV).
+  set (c1 := with_queues c (set_queue (c_queues c) qi q')) in *.
+  assert (R1 : RI true s c1 m mn).
+  { apply (RI_frame true s c c1 m mn HR eq_refl eq_refl); [|exact (sp_rvr _ _ _ _ (ri_sp _ _ _ _ _ HR))].
+    apply (QR_set_queue c qi q q' (ri_qr _ _ _ _ _ HR) Hq (mv_wf _ _ _ _ MV)). intros x Hx. eapply MoveQ_member; eassumption. }
+  assert (Hcl : CL c1 ids).
+  { intros id t Hin Hf. change (c_tasks c1) with (c_tasks c) in Hf. change (c_rqs c1) with (c_rqs c).
+    assert (Hm : member q id) by (exists pe; left; exact (proj1 (mv_from _ _ _ _ MV id Hin))).
+    rewrite (QR_member_class c qi q id t (ri_qr _ _ _ _ _ HR) Hq Hm Hf). eauto. }
+  destruct (prefill_mark_RI s mn w ids c1 m c2 R1 Hcl Hpm) as [R2 Q2].
+  assert (Em : wu_set m (mkWU w (wu_assigned (wu_get m w)) (wu_prefills (wu_get m w) ++ ids) (wu_retracts (wu_get m w))) = wu_set m (addpre (wu_get m w) ids)).
+  { unfold addpre. rewrite wu_get_key. reflexivity. }
+  rewrite Em in H. destruct (IH c2 _ c' m' R2) as [R3 Q3]; [rewrite (RI_rqs _ _ _ _ _ _ _ _ HR R2); exact Hr | exact Hmn | exact H|].
+  split; [exact R3|]. eapply RQP_trans; [|exact Q3]. eapply RQP_trans; [apply (RQP_tasks c c1); reflexivity | exact Q2].
+Qed.
+
+Lemma prefill_queues_RI s mn worder top n : forall c m qi c' m',
+  RI true s c m mn -> prefill_queues c m worder qi n top = Ok (c', m') -> RI true s c' m' mn.
+Proof.
+  induction n as [|k IH]; intros c m qi c' m' HR H; cbn [prefill_queues] in H; [inversion H; subst; exact HR|].
+  apply bind_ok in H. destruct H as (q & _ & H). cbv zeta in H.
+  destruct (q_top_priority q) as [tp|]; [|eapply IH; eassumption].
+  destruct (negb (Z.eqb tp top)); [eapply IH; eassumption|].
+  destruct (N.eqb (q_top_size_no_prefill q - c_reserve c) 0); [eapply IH; eassumption|].
+  match type of H with (if ?b then _ else _) = _ => destruct b end.
+  - match type of H with (if ?b then _ else _) = _ => destruct b end; [eapply IH; eassumption | discriminate].
+  - match type of H with match filter ?f worder with _ => _ end = _ => set (elig := f) in *; destruct (filter elig worder) as [|w1 wr] eqn:Ews end; [eapply IH; eassumption|].
+    match type of H with (if ?b then _ else _) = _ => destruct b end; [eapply IH; eassumption|].
+    apply bind_ok in H. destruct H as ([c1 m1] & Hpw & H).
+    (* the request class of this queue has a single-node assignment in this round *)
+    assert (Hel : elig w1 = true) by (assert (X : In w1 (filter elig worder)) by (rewrite Ews; left; reflexivity); apply filter_In in X; apply X).
+    unfold elig in Hel. destruct (find_worker (c_workers c) w1) as [wk|]; [|discriminate]. destruct (w_assign wk) as [a p f|]; [|discriminate].
+    apply andb_true_iff in Hel. destruct Hel as [Hex _]. apply existsb_exists in Hex. destruct Hex as ([y v] & Hin & Hy). cbn [fst] in Hy.
+    destruct (find_task (c_tasks c) y) as [t|] eqn:Hf; [|discriminate]. apply N.eqb_eq in Hy.
+    assert (Hu : In (wu_get m w1) m) by (destruct (wu_get_in m w1) as [X|X]; [exact X | rewrite X in Hin; destruct Hin]).
+    destruct (ri_asg _ _ _ _ _ HR _ y v Hu Hin) as (t0 & Hf0 & Est). rewrite Hf in Hf0. inversion Hf0; subst t0.
+    pose proof (sp_mnt _ _ _ _ (ri_sp _ _ _ _ _ HR) _ _ Hf eq_refl) as M. unfold mn_task_ok in M. rewrite Est in M. change (core_of (st_core s c)) with c in M.
+    destruct (nth_error (c_rqs c) (N.to_nat (t_rq t))) as [r|] eqn:Er; [|discriminate]. apply negb_true_iff in M.
+    rewrite Hy, Nat2N.id in Er.
+    destruct (prefill_workers_RI s mn qi _ r (w1 :: wr) c m c1 m1 HR Er M Hpw) as [R1 _].
+    eapply IH; eassumption.
+Qed.
+
+(** * Sending *)
+Lemma ctasks_prefill_ctp c l cts : ctasks_prefill c l = Ok cts -> cts = map (ctp c) l.
+Proof.
+  revert cts. induction l as [|id r IH]; cbn [ctasks_prefill]; intros cts H; [inversion H; reflexivity|].
+  apply bind_ok in H. destruct H as (t & Ht & H). apply bind_ok in H. destruct H as (rest & Hr & H). inversion H; subst.
+  cbn [map]. rewrite (IH _ Hr). f_equal. unfold ctp. rewrite (get_task_find _ _ _ Ht). reflexivity.
+Qed.
+
+Lemma send_mapping_SP X pum m : forall s s' rest,
+  SP X s pum (flat_map (umsgs (core_of s)) m ++ rest) -> send_mapping s m = Ok s' -> SP X s' pum rest /\ core_of s' = core_of s.
+Proof.
+  induction m as [|u r IH]; intros s s' rest HS H; cbn [send_mapping] in H; [inversion H; subst; split; [exact HS | reflexivity]|].
+  apply bind_ok in H. destruct H as (s1 & H1 & H). apply bind_ok in H. destruct H as (cts1 & Hc1 & H). apply bind_ok in H. destruct H as (cts2 & Hc2 & H).
+  apply bind_ok in H. destruct H as (s2 & H2 & H).
+  cbn [flat_map] in HS. unfold umsgs at 1 in HS. rewrite <- !app_assoc in HS.
+  (* the retract message *)
+  assert (A1 : SP X s1 pum ((match map (ctp (core_of s)) (wu_prefills u) ++ map (ctk (core_of s)) (wu_assigned u) with [] => [] | cts => [(wu_w u, DCompute cts)] end) ++ flat_map (umsgs (core_of s)) r ++ rest) /\ core_of s1 = core_of s).
+  { destruct (wu_retracts u) as [|i0 ir]; [inversion H1; subst; split; [exact HS | reflexivity]|].
+    split; [eapply SP_send; [exact HS | exact H1] | eapply send_worker_core'; exact H1]. }
+  destruct A1 as [S1 E1]. rewrite E1 in Hc1, Hc2. rewrite (ctasks_prefill_ctp _ _ _ Hc1), (ctasks_of_ctk _ _ _ Hc2) in H2.
+  assert (A2 : SP X s2 pum (flat_map (umsgs (core_of s)) r ++ rest) /\ core_of s2 = core_of s).
+  { destruct (map (ctp (core_of s)) (wu_prefills u) ++ map (ctk (core_of s)) (wu_assigned u)) as [|c0 cr]; [inversion H2; subst; split; [exact S1 | exact E1]|].
+    split; [eapply SP_send; [exact S1 | exact H2] | rewrite (send_worker_core' _ _ _ _ H2); exact E1]. }
+  destruct A2 as [S2 E2]. rewrite <- E2 in S2. destruct (IH s2 s' rest S2 H) as [S3 E3]. split; [exact S3 | congruence].
+Qed.
+
+Lemma send_mn_SP X pum mn : forall s s', SP X s pum (map (mnmsg (core_of s)) mn) -> send_mn s mn = Ok s' -> SP X s' pum [] /\ core_of s' = core_of s.
+Proof.
+  induction mn as [|id r IH]; intros s s' HS H; cbn [send_mn] in H; [inversion H; subst; split; [exact HS | reflexivity]|].
+  apply bind_ok in H. destruct H as (t & Ht & H). apply get_task_find in Ht.
+  destruct (t_state t) as [n1|w2 r2|w2|w2|w2 r2|[|w0 ws]|] eqn:Est; try discriminate.
+  apply bind_ok in H. destruct H as (s1 & H1 & H).
+  cbn [map] in HS. unfold mnmsg at 1 in HS. rewrite Ht, Est in HS.
+  pose proof (SP_send _ _ _ _ _ _ _ HS H1) as S1. pose proof (send_worker_core' _ _ _ _ H1) as E1. rewrite <- E1 in S1.
+  destruct (IH s1 s' S1 H) as [S2 E2]. split; [exact S2 | congruence].
+Qed.
+
+(** * The theorem *)
+Lemma RI_weaken s c m mn : RI false s c m mn -> RI true s c m mn.
+Proof. intros [S1 S2 S3 S4 S5 S6 S7 S8 S9 S10]. constructor; try assumption. discriminate. Qed.
+
+Theorem sched_PROTO s sol s' outs :
+  PROTO s -> UH s -> QR (s_core s) -> op_ok s (OpSched sol) = true -> step s (OpSched sol) = Ok (s', outs) -> PROTO s'.
+Proof.
+  intros HP [Hcs Hpa] HQ Hop H. cbn [step] in H. destruct (c_flag (s_core s)); [|discriminate].
+  unfold run_scheduling in H. cbv zeta in H. change (core_of (s, [])) with (s_core s) in H.
+  match type of H with (if ?b then _ else _) = _ => destruct b end; [discriminate|].
+  apply bind_ok in H. destruct H as ([c1 m1] & Hsn & H). apply bind_ok in H. destruct H as ([c2 mn] & Hmn & H).
+  apply bind_ok in H. destruct H as ([c3 m3] & Hpf & H). apply bind_ok in H. destruct H as (s1 & Hsm & H). apply bind_ok in H. destruct H as (s2 & Hsmn & H).
+  inversion H; subst s' outs. clear H.
+  cbn [op_ok] in Hop. apply andb_true_iff in Hop. destruct Hop as [Hop1 Hop2]. rewrite forallb_forall in Hop1, Hop2.
+  set (s0 := (s, @nil out)).
+  assert (R0 : RI false s0 (s_core s) [] []).
+  { constructor.
+    - apply (SP_ext x0 s0); [apply SP_init; assumption | reflexivity | reflexivity | reflexivity].
+    - constructor.
+    - split; [intros u y v [] | intros id t w0 ws []].
+    - intros y [(u & [] & _)|[]].
+    - exact HQ.
+    - intros _ u [].
+    - intros u y v [].
+    - intros u [].
+    - intros id [].
+    - reflexivity. }
+  assert (Hsnok : sn_ok (s_core s) (sol_sn sol)).
+  { intros e He. specialize (Hop1 e He). apply andb_true_iff in Hop1. destruct Hop1 as [A B]. apply N.eqb_eq in A. split; [exact A|].
+    destruct (nth_error (c_rqs (s_core s)) (N.to_nat (fst (fst e)))) as [r|]; [|discriminate]. exists r. split; [reflexivity | apply negb_true_iff; exact B]. }
+  destruct (map_sn_RI s0 [] sol (sol_sn sol) (s_core s) [] c1 m1 R0 Hsnok Hsn) as [R1 _].
+  pose proof (RI_sort false s0 c1 m1 [] R1) as R1s.
+  assert (Hmnok : mn_ok c1 (sol_mn sol)).
+  { intros e He. specialize (Hop2 e He). rewrite (RI_rqs _ _ _ _ _ _ _ _ R0 R1).
+    destruct (nth_error (c_rqs (s_core s)) (N.to_nat (fst (fst e)))) as [r|]; [|discriminate]. exists r. auto. }
+  destruct (map_mn_RI true s0 (map (sortu c1) m1) (sol_mn sol) c1 [] c2 mn (RI_weaken _ _ _ _ R1s) Hmnok Hmn) as [R2 _].
+  assert (R3 : RI true s0 c3 m3 mn).
+  { destruct (queues_top_priority (c_queues c2)) as [top|]; [eapply prefill_queues_RI; [exact R2 | exact Hpf] | inversion Hpf; subst; exact R2]. }
+  pose proof (ri_sp _ _ _ _ _ R3) as S3. unfold pdM in S3.
+  destruct (send_mapping_SP x0 no_pum m3 (st_core s0 c3) s1 (map (mnmsg c3) mn) S3 Hsm) as [S4 E4].
+  change (core_of (st_core s0 c3)) with c3 in E4. rewrite <- E4 in S4.
+  destruct (send_mn_SP x0 no_pum mn s1 s2 S4 Hsmn) as [S5 E5].
+  apply (SP_final (st_core s2 (with_flag (core_of s2) false))).
+  apply (SP_CF x0 x0); [exact S5 | apply CF_tasks_same; auto | auto].
 Qed.
